@@ -689,6 +689,8 @@ type mxGhost struct {
 	batches map[uint64]*types.BatchTx  // every Minter batch the hub ever stored, by outgoing sequence
 	sets    map[uint64]*types.SignerSetTx
 	execd   map[string]bool // tx keys the multisig executed
+	preNext uint64          // see mx:presettle
+	preKey  string
 }
 
 func (m *Monitor) mxGhost() *mxGhost {
@@ -798,6 +800,49 @@ func (m *Monitor) checkC08Mx(g *Gen, w []string, out string) {
 			}
 		}
 	}
+	if w[1] == "mx:presettle" {
+		// remember the transaction whose sequence is the multisig's next nonce, if members holding the threshold have a
+		// recorded confirmation for it and nothing the multisig did is still unknown to the hub: one more full turn of
+		// every connector must get it executed
+		gh.preNext, gh.preKey = 0, ""
+		events := uint64(0)
+		for _, c := range mx.conns {
+			if n := c.ctx.LastEventNonce() - 1; n > events {
+				events = n
+			}
+		}
+		if g.env.k.GetLastObservedEventNonce(g.env.ctx, "minter") != events {
+			return
+		}
+		next := mx.node.nonce + 1
+		key := ""
+		for _, b := range g.env.Batches(g.env.ctx, "minter") {
+			if b.Sequence == next {
+				key = batchKey(b.ExternalTokenId, b.BatchNonce)
+			}
+		}
+		for _, v := range g.env.Sets(g.env.ctx, "minter") {
+			if v.Sequence == next {
+				key = setKey(v.Nonce)
+			}
+		}
+		if key == "" {
+			return
+		}
+		confirmed := uint64(0)
+		for i, a := range mx.node.addrs {
+			if gh.confs[key]["0x"+strings.ToLower(a[2:])] {
+				confirmed += mx.node.weights[i]
+			}
+		}
+		if confirmed >= mx.node.threshold {
+			gh.preNext, gh.preKey = next, key
+			g.stats["C08:mx-presettle-next-transaction-fully-confirmed"]++
+		} else {
+			g.stats["C08:mx-presettle-next-transaction-lacks-confirmations"]++
+		}
+		return
+	}
 	if w[1] == "mx:settle" {
 		// every connector has signed, relayed and reported repeatedly: the two sides must be in step
 		events := uint64(0)
@@ -829,6 +874,9 @@ func (m *Monitor) checkC08Mx(g *Gen, w []string, out string) {
 		pending := len(g.env.Batches(g.env.ctx, "minter"))
 		if pending > 0 {
 			g.stats["C08:mx-settle-with-batches-still-pending"]++
+		}
+		if gh.preNext != 0 && mx.node.nonce < gh.preNext {
+			m.report(g, "confirmed-transaction-never-reached-the-multisig", fmt.Sprintf("%s had sequence %d = the multisig's next nonce, recorded confirmations of members with weight >= %d and every Minter event applied on the hub; after another full turn of every connector it is still not executed (multisig nonce %d)", gh.preKey, gh.preNext, mx.node.threshold, mx.node.nonce))
 		}
 	}
 }
